@@ -113,9 +113,10 @@ def guard_dnf(guards):
     return out
 
 
-def block_dnf(ev, res, body, bb, lit=None, cap=48, _memo=None, _back=None):
+def block_dnf(ev, res, body, bb, lit=None, cap=48, _memo=None, _back=None, stop=frozenset()):
     """exact condition under which control reaches block `bb` of the evaluated top frame, over forward edges (loops are cut at their back edges): DNF of the
-    literals implied by the edge guards; `lit` canonicalises a fact (may return None to drop it).  None when it grows beyond `cap` disjuncts."""
+    literals implied by the edge guards; `lit` canonicalises a fact (may return None to drop it); paths through a block of `stop` are left out.  None when it
+    grows beyond `cap` disjuncts."""
     memo = _memo if _memo is not None else {}
     back = _back if _back is not None else set(body.back_edges())
     if bb in memo:
@@ -124,10 +125,10 @@ def block_dnf(ev, res, body, bb, lit=None, cap=48, _memo=None, _back=None):
     if bb == 0:
         memo[bb] = [frozenset()]
         return memo[bb]
-    preds = [p for p in body.pred[bb] if (p, bb) not in back and p in body.reachable and not body.blocks[p]["cleanup"]]
+    preds = [p for p in body.pred[bb] if (p, bb) not in back and p in body.reachable and not body.blocks[p]["cleanup"] and p not in stop]
     out = []
     for p in preds:
-        pd = block_dnf(ev, res, body, p, lit, cap, memo, back)
+        pd = block_dnf(ev, res, body, p, lit, cap, memo, back, stop)
         if pd is None:
             return None
         gp = ev.guards(res, p)
